@@ -348,6 +348,8 @@ def worker_reports(ck, ctx):
 
 def run(ck, ctx):
     C.adapter_census(ck, ctx, "loop-shape", ("work::", "task::"))
+    # every dependent of a finished step is re-examined: one that is skipped is never promoted and the run ends in the `BUG:` panic
+    C.loops_complete(ck, ctx, "loop-shape", [("work::Work::ready_dependents", "work::Work::recheck_ready", "the dependents of a finished step"), ("work::Work::ready_dependents", "std::collections::HashSet::insert", "the outputs' dependents")])
     cycle_first(ck, ctx)
     validation(ck, ctx)
     # a slot that is not given back when a build leaves Running (for Done *or* Failed) strands the rest of its pool: they are never decided
